@@ -288,9 +288,9 @@ func replayMatches(f *gosym.Failure, outcome string) bool {
 	case "assert":
 		return outcome == "assert:"+f.Label
 	case "panic":
-		return strings.HasPrefix(outcome, "panic:")
+		return strings.HasPrefix(outcome, "panic:") && !strings.HasPrefix(outcome, "panic:verifrt:")
 	case "deadlock":
-		return strings.HasPrefix(outcome, "hang") || strings.HasPrefix(outcome, "panic:verifrt: threads did not finish") || strings.Contains(outcome, "all goroutines are asleep")
+		return strings.HasPrefix(outcome, "hang") || strings.Contains(outcome, "all goroutines are asleep")
 	case "lock-held":
 		return outcome == "assert:"+f.Label || strings.HasPrefix(outcome, "lock-held")
 	}
@@ -339,7 +339,13 @@ func nativeReplay(verifDir, repo, id string, hfs []gosym.HarnessFile, f *gosym.F
 			}
 		}
 	}
-	replace[filepath.Join(repo, "internal", "verifrt", "verifrt.go")] = filepath.Join(verifDir, "rt", "verifrt", "verifrt.go")
+	if ents, err := os.ReadDir(filepath.Join(verifDir, "rt", "verifrt")); err == nil {
+		for _, e := range ents {
+			if strings.HasSuffix(e.Name(), ".go") {
+				replace[filepath.Join(repo, "internal", "verifrt", e.Name())] = filepath.Join(verifDir, "rt", "verifrt", e.Name())
+			}
+		}
+	}
 	if ents, err := os.ReadDir(filepath.Join(verifDir, "rt", "verifmodels")); err == nil {
 		for _, e := range ents {
 			if strings.HasSuffix(e.Name(), ".go") {
